@@ -17,6 +17,8 @@ CLAUSE = CLAUSE + (" (RF-STATE) a client known to be in a holder state (GRANTED,
                    "function releases what it locked, never locks a mutex it holds, and the lock order is acyclic.")
 CLAUSE = CLAUSE + (" (RF-NULL) every call of a capture function that asserts or dereferences its context is made with p_capture "
                    "under a dominating p_capture != NULL test (p_capture is NULL while no client has requested a service).")
+CLAUSE = CLAUSE + (" vbi_proxy_queue_release_all resets the queue cursor only of clients of its own device; the token states at or "
+                   "above REQ_TOKEN_GRANTED (REQ_CONTROLS_CHN) are exactly GRANTED and RETURNED.")
 NOT_DECIDED = "service to the other clients after a fault (liveness), timeouts, the scheduler's fairness."
 
 UNIT = "daemon/proxyd.c"
@@ -40,6 +42,8 @@ def run(ctx, run):
     _drain_before_update(ctx, run, take)
     _holder_leaves_by_own_message(ctx, run)
     _capture_null_discipline(ctx, run)
+    _release_all_own_device(ctx, run)
+    _controls_channel_set(ctx, run)
     # 'nor stops serving': a mutex taken twice or kept at a return blocks the daemon for everybody (shared with C18)
     from . import C18
     C18.lock_discipline(ctx, run)
@@ -766,3 +770,63 @@ def _capture_null_discipline(ctx, run):
                               % (f.name, e["callee"], e["callee"]), ex.loc(f, i), witness={"function": f.name, "callee": e["callee"]})
     run.floor("capture API calls on p_capture in the daemon", n, 12)
     run.floor("calls of NULL-intolerant capture functions", n_intol, 6)
+
+
+def _release_all_own_device(ctx, run):
+    """RF-DOM: vbi_proxy_queue_release_all (dev_idx) returns the frames queued on *one* device to
+    its free list; only the clients of that device may lose their queue cursor (`req->p_sliced =
+    NULL` under req->dev_idx == dev_idx).  Resetting the cursor of another device's client orphans
+    the frames it had not been sent yet (non-zero ref_count, never released) - frames are lost
+    and vbi_proxy_queue_release_sliced() later asserts."""
+    P = ctx.prog
+    f = P.need("vbi_proxy_queue_release_all", UNIT)
+    run.touch(f)
+    pn = f.params[0]["name"]
+    n = 0
+    for bid, i in flow.all_events(f):
+        for lhs, var, op, rhs in flow.stores(f, i):
+            if lhs is None:
+                continue
+            l = f.exprs[ex.skip(f, lhs)]
+            if not (l["k"] == "mem" and l["member"] == "p_sliced" and l.get("in") in ("PROXY_CLNT_s", "PROXY_CLNT")):
+                continue
+            n += 1
+            ok = any(a.rel == "==" and a.L.has("PROXY_CLNT_s.dev_idx") or (a.rel == "==" and a.R is not None and a.R.has("PROXY_CLNT_s.dev_idx"))
+                     for a in atoms.atoms_at(f, i))
+            key = "RF-DOM:vbi_proxy_queue_release_all:own-device"
+            if ok:
+                run.holds("RF-DOM", key, "`%s` only for clients of device %s" % (ex.pretty(f, i)[:40], pn), ex.loc(f, i))
+            else:
+                run.violation("RF-DOM", key, "`%s` is not confined to the clients of device `%s`: a flush on one device takes the queue "
+                              "cursor away from the clients of every other device; their undelivered frames are orphaned (lost "
+                              "frames, then a failed assertion in vbi_proxy_queue_release_sliced)" % (ex.pretty(f, i)[:40], pn),
+                              ex.loc(f, i))
+    run.floor("client cursor resets in vbi_proxy_queue_release_all", n, 1)
+
+
+def _controls_channel_set(ctx, run):
+    """RF-TAB: REQ_CONTROLS_CHN (X) is `X >= REQ_TOKEN_GRANTED`: it depends on the order of the
+    REQ_TOKEN_STATE enumerators.  The states at or above GRANTED are exactly {GRANTED, RETURNED}
+    (the client switched or may switch the channel); RECLAIM and RELEASE - holders that have been
+    or will be asked to give the token back - lie below, or the scheduler counts them as active,
+    vbi_proxyd_channel_stopped() resets them to NONE and the token is granted again while the
+    holder has not confirmed."""
+    P = ctx.prog
+    en = P.enums.get("REQ_TOKEN_STATE")
+    if not en:
+        raise AnalysisBroken("enum REQ_TOKEN_STATE not found")
+    vals = en["enumerators"]
+    g = vals.get("REQ_TOKEN_GRANTED")
+    if g is None:
+        raise AnalysisBroken("REQ_TOKEN_GRANTED not found")
+    above = {k for k, v in vals.items() if v >= g}
+    key = "RF-TAB:REQ_TOKEN_STATE:controls-channel"
+    want = {"REQ_TOKEN_GRANTED", "REQ_TOKEN_RETURNED"}
+    if above == want:
+        run.holds("RF-TAB", key, "states >= REQ_TOKEN_GRANTED: %s" % sorted(above), UNIT)
+    else:
+        run.violation("RF-TAB", key, "the enumerators at or above REQ_TOKEN_GRANTED are %s, expected %s: REQ_CONTROLS_CHN (X) = "
+                      "(X >= REQ_TOKEN_GRANTED) now also holds for %s, so the scheduler treats a holder that is being asked to give "
+                      "the token back as the active client and frees the token without its confirmation"
+                      % (sorted(above), sorted(want), sorted(above - want) or sorted(want - above)), UNIT,
+                      witness={"enum": vals})
